@@ -3,6 +3,7 @@
 package analyzer
 
 import (
+	"github.com/smarthome-go/homescript/v3/homescript/analyzer/ast"
 	"github.com/smarthome-go/homescript/v3/homescript/diagnostic"
 	"github.com/smarthome-go/homescript/v3/homescript/errors"
 )
@@ -56,6 +57,32 @@ func (self *Analyzer) lastIsErrorAt(span errors.Span) bool {
     ensures @different-kind got.Kind() != expected.Kind() && got.Kind() != ast.UnknownTypeKind && got.Kind() != ast.NeverTypeKind && expected.Kind() != ast.UnknownTypeKind && expected.Kind() != ast.NeverTypeKind ==> err != nil && err.GotDiagnostic.Level == diagnostic.DiagnosticLevelError
 @*/
 
+// vWild: kinds that are compatible with every type.
+func vWild(k ast.TypeKind) bool {
+	return k == ast.AnyTypeKind || k == ast.UnknownTypeKind || k == ast.NeverTypeKind
+}
+
+// vSameShape: the two types have one kind at every level of list and option
+// nesting (a wildcard kind matches everything below it): what a successful
+// TypeCheck guarantees at least - `[[int]]` is not compatible with `[[str]]`.
+func vSameShape(got ast.Type, expected ast.Type) bool {
+	if vWild(got.Kind()) || vWild(expected.Kind()) {
+		return true
+	}
+	if got.Kind() != expected.Kind() {
+		return false
+	}
+	switch g := got.(type) {
+	case ast.ListType:
+		e, ok := expected.(ast.ListType)
+		return ok && vSameShape(g.Inner, e.Inner)
+	case ast.OptionType:
+		e, ok := expected.(ast.OptionType)
+		return ok && vSameShape(g.Inner, e.Inner)
+	}
+	return true
+}
+
 // Function types (structural part): for every expected parameter either a
 // parameter of that name exists in the given function type (its type is then
 // checked) or - only when name mismatches are ignored - the parameter at the
@@ -75,6 +102,7 @@ func (self *Analyzer) lastIsErrorAt(span errors.Span) bool {
     loop "range gotFnParams.Params" invariant foundParam == nil || foundParam.Name.Ident() == expectedParam.Name.Ident()
     ensures @silent len(self.diagnostics) == old(len(self.diagnostics))
     ensures @scalars-same-kind ast.VScalarKind(got.Kind()) && got.Kind() == expected.Kind() ==> result == nil
+    ensures @compatible-types-have-one-shape result == nil ==> vSameShape(got, expected)
     ensures @compatible-types-have-one-kind result == nil ==> got.Kind() == expected.Kind() || expected.Kind() == ast.AnyTypeKind || expected.Kind() == ast.UnknownTypeKind || expected.Kind() == ast.NeverTypeKind || got.Kind() == ast.AnyTypeKind || got.Kind() == ast.UnknownTypeKind || got.Kind() == ast.NeverTypeKind
     ensures @scalars-different-kind ast.VScalarKind(got.Kind()) && ast.VScalarKind(expected.Kind()) && got.Kind() != expected.Kind() ==> result != nil && result.GotDiagnostic.Level == diagnostic.DiagnosticLevelError
 @*/
